@@ -433,11 +433,15 @@ def uncps(a):
 def describe(rec):
     """One-line human description of an observation record for VIOLATION / KNOWN-FINDING lines."""
     parts = []
-    for key in ("e", "kind", "fn", "api"):
+    for key in ("e", "kind", "fn", "api", "law"):
         if key in rec and isinstance(rec[key], str):
             parts.append("%s=%s" % (key, rec[key]))
     if "text" in rec and isinstance(rec["text"], list):
         parts.append("expr=%r" % uncps(rec["text"]))
+    if "W" in rec and isinstance(rec["W"], list):
+        parts.append("whole=%r" % uncps(rec["W"]))
+    if "doctext" in rec and isinstance(rec["doctext"], list):
+        parts.append("doc=%r" % uncps(rec["doctext"]))
     for key in ("len", "step"):
         if key in rec:
             parts.append("%s=%s" % (key, json.dumps(rec[key])))
